@@ -1,5 +1,117 @@
-(** C40 -- stub, replaced below *)
-From TLV Require Import Frame.FrameHdrModel.
+(** C40 -- RPC request/response extras are transmitted unchanged (pkg/rpc/rpc_format.go and the
+    generated TL1 codecs of rpcInvokeReqExtra / rpcReqResultExtra).  Property theorems only; each is
+    closed by [exact] of a lemma from Frame/FrameHdrProofs.v and followed by [Print Assumptions].
+
+    [prepare_request]/[parse_request] transcribe preparePacket/ParseInvokeReq, [prepare_response]/
+    [parse_response] transcribe prepareResponseBody and the client's RpcReqResultHeader.ReadTL1 +
+    parseResponseExtra.  Both body formats are covered: [tl2 = true] is the header followed by the
+    rpcTL2Marker tag.  [req_extra_ok]/[resp_extra_ok]: every field within its wire range (uint32/uint64
+    patterns, strings below 2^56 bytes, vectors/maps below 2^32 elements, map keys strictly increasing
+    -- the order the Go writer emits a map in).  [norm_req]/[norm_resp]: fields whose flag bit is clear
+    read back as their zero value (so an extra whose unset fields are zero is transmitted unchanged);
+    every one of the 2^32 flag words is covered, including bits that guard no field. *)
+From TLV Require Import Prim.PrimModel Frame.FrameHdrModel Frame.FrameHdrProofs.
 Open Scope N_scope.
-Example C40_ex_stub : bit 5 0 = true.
+
+Theorem C40_request_extra_codec_exact : forall e rest, req_extra_ok e ->
+  req_extra_r (req_extra_w e ++ rest) = Ok (norm_req e, rest).
+Proof. exact req_extra_roundtrip. Qed.
+Print Assumptions C40_request_extra_codec_exact.
+
+Theorem C40_response_extra_codec_exact : forall e rest, resp_extra_ok e ->
+  resp_extra_r (resp_extra_w e ++ rest) = Ok (norm_resp (rs_flags e) e, rest).
+Proof. exact resp_extra_roundtrip. Qed.
+Print Assumptions C40_response_extra_codec_exact.
+
+(** Request: query id, actor id, extra, body format and body arrive unchanged, for every combination of
+    actor/extra wrappers, provided the user body starts with a tag that is not itself a wrapper tag. *)
+Theorem C40_request_roundtrip : forall qid actor e tl2 body tag w,
+  u64 qid -> u64 actor -> req_extra_ok e -> body_starts body tag -> ~ is_wrapper_tag tag ->
+  prepare_request qid actor e tl2 body = Some w ->
+  parse_request w = Ok {| q_id := qid; q_actor := actor; q_extra := norm_req e; q_tl2 := tl2;
+                          q_tag := tag; q_body := body |}.
+Proof. exact request_roundtrip. Qed.
+Print Assumptions C40_request_roundtrip.
+
+(** Response: query id, extra (restricted to the flags the request asked for) and body arrive
+    unchanged; in TL2 format for every body, in TL1 format for bodies that start with a tag other than
+    reqResultHeader and the three error tags. *)
+Theorem C40_response_roundtrip : forall qid mask tl2 e body w,
+  u64 qid -> resp_extra_ok e ->
+  (tl2 = false -> exists tag, body_starts body tag /\ ~ is_resp_special tag) ->
+  prepare_response qid mask tl2 e None body = PWire w ->
+  parse_response tl2 w = Ok {| a_id := qid; a_extra := norm_resp (N.land (rs_flags e) mask) e;
+                               a_out := OBody body |}.
+Proof. exact response_roundtrip. Qed.
+Print Assumptions C40_response_roundtrip.
+
+(** Error responses: code and description arrive unchanged together with the extra (code 0 is replaced
+    by tlerrorcodes.Unknown by design). *)
+Theorem C40_response_error_roundtrip : forall qid mask tl2 e code desc body w,
+  u64 qid -> resp_extra_ok e -> u32 code -> str_ok desc ->
+  prepare_response qid mask tl2 e (Some (code, desc)) body = PWire w ->
+  parse_response tl2 w = Ok {| a_id := qid; a_extra := norm_resp (N.land (rs_flags e) mask) e;
+                               a_out := OError (if code =? 0 then unknown_code else code) desc [] |}.
+Proof. exact response_error_roundtrip. Qed.
+Print Assumptions C40_response_error_roundtrip.
+
+Theorem C40_noresult_sends_nothing : forall qid mask tl2 e err body,
+  bit mask 7 = true -> prepare_response qid mask tl2 e err body = PNoResult.
+Proof. exact prepare_response_noresult. Qed.
+Print Assumptions C40_noresult_sends_nothing.
+
+(** A map written in key order is read back as the same map. *)
+Theorem C40_map_canonical : forall (V : Type) (m : list (bytes * V)),
+  Sorted.StronglySorted key_lt m -> dict_of m = m.
+Proof. exact @dict_of_sorted. Qed.
+Print Assumptions C40_map_canonical.
+
+(** The string codec used for the extras is the one of C33 (pkg/basictl and internal/vkgo/pkg/basictl
+    are the same file; the constants of both copies are regenerated on every run). *)
+Example C40_ex_basictl_copies_agree :
+  vk_tinyStringLen = tinyStringLen /\ vk_mediumStringMarker = mediumStringMarker /\ vk_hugeStringMarker = hugeStringMarker
+  /\ vk_maxMediumStringLen = maxMediumStringLen /\ vk_maxHugeStringLen = maxHugeStringLen.
+Proof. vm_compute. repeat split; reflexivity. Qed.
+
+(** Non-vacuity: a concrete request with actor, flags (requester_id, custom_timeout, a trace context and
+    a bit that guards no field) in TL2 format; its premises hold; it parses back. *)
+Definition ex_extra : req_extra :=
+  {| rq_flags := 2 ^ 9 + 2 ^ 23 + 2 ^ 29 + 2 ^ 31; rq_requester_id := 2 ^ 64 - 5; rq_wait_shards := [];
+     rq_wait_binlog_pos := 0; rq_string_forward_keys := []; rq_int_forward_keys := []; rq_string_forward := [];
+     rq_int_forward := 0; rq_custom_timeout_ms := 1500; rq_supported_compression := 0; rq_random_delay := 0;
+     rq_persistent := persistent0;
+     rq_trace := {| tc_mask := 8; tc_id := {| u_lo := 1; u_hi := 2 |}; tc_parent := 0; tc_source := [97; 98] |};
+     rq_exec_ctx := [] |}.
+
+Example C40_ex_request :
+  match prepare_request 77 5 ex_extra true [1; 2; 3; 4; 9] with
+  | Some w => parse_request w = Ok {| q_id := 77; q_actor := 5; q_extra := ex_extra; q_tl2 := true;
+                                      q_tag := 67305985; q_body := [1; 2; 3; 4; 9] |}
+  | None => False
+  end.
 Proof. vm_compute. reflexivity. Qed.
+
+Example C40_ex_response :
+  match prepare_response 77 (2 ^ 0 + 2 ^ 27) false
+          {| rs_flags := 2 ^ 0 + 2 ^ 1 + 2 ^ 27; rs_binlog_pos := 10; rs_binlog_time := 11; rs_engine_pid := pid0;
+             rs_request_size := 0; rs_response_size := 0; rs_failed_subqueries := 0; rs_compression_version := 0;
+             rs_stats := []; rs_shards_binlog_pos := []; rs_epoch_number := 7; rs_view_number := 2 ^ 64 - 1 |}
+          None [1; 2; 3; 4] with
+  | PWire w => match parse_response false w with
+               | Ok a => a_id a = 77 /\ rs_flags (a_extra a) = 2 ^ 0 + 2 ^ 27 /\ rs_binlog_pos (a_extra a) = 10
+                         /\ rs_binlog_time (a_extra a) = 0 /\ rs_view_number (a_extra a) = 2 ^ 64 - 1
+                         /\ a_out a = OBody [1; 2; 3; 4]
+               | _ => False
+               end
+  | _ => False
+  end.
+Proof. vm_compute. repeat split; reflexivity. Qed.
+
+Example C40_ex_premises_satisfiable : req_extra_ok ex_extra /\ body_starts [1; 2; 3; 4; 9] 67305985 /\ ~ is_wrapper_tag 67305985.
+Proof.
+  split; [|split].
+  - unfold req_extra_ok, dict_wf, persistent_ok, trace_ok, uuid_ok, u32, u64, str_ok. cbn.
+    repeat split; try constructor; try (vm_compute; reflexivity); try (vm_compute; discriminate).
+  - exists [9]. reflexivity.
+  - unfold is_wrapper_tag. vm_compute. intros [H|[H|[H|H]]]; discriminate.
+Qed.
